@@ -107,11 +107,17 @@ example :
 open PycModel.StmtSkel PycModel.View PycModel.FullExpr in
 /-- **Statement ASTs mirror C's statement nesting** (6.8): for every statement `st` of
 `S ::= X ; | ; | { S* } | if ( X ) S | if ( X ) S else S | while ( X ) S | do S while ( X ) ; |
-return X? ; | break ; | continue ;` (expressions `X` as in `C02`), of any size and nesting depth,
+return X? ; | break ; | continue ; | case X : S | default : S | switch ( X ) S` (expressions `X` as
+in `C02`), of any size and nesting depth,
 `_parse_statement` of the parser model returns `st.val`: an `else` belongs to the nearest `if` that
 can take it (`WFS`: the `then` branch of an `if ... else` does not end with an `else`-less `if`),
 loop and branch bodies are the single following statement, the items of a block keep their source
-order, expression statements are their expression - and exactly the tokens of `st` are consumed.
+order, expression statements are their expression, a `case`/`default` label owns the statement
+that follows it, and the block of a `switch` comes back regrouped exactly as the specification
+`Spec.switchBodyV` / `regroup` says (every statement under the nearest preceding label, consecutive
+labels as siblings, statements before the first label untouched): `fix_switch_cases` is applied to
+what the parser built, whose labelled items are *proved* to have the shape the refinement theorem
+needs (`StmtSkel.svals_shaped`) - and exactly the tokens of `st` are consumed.
 Nothing is assumed about the parser; braces move the scope stack at lex time (`View.lexScopes`). -/
 theorem statements_nest_as_the_grammar_says (st : S) (hwf : WFS st) (s : PState) (rest : List Tk)
     (hs : SeesT s (st.flat ++ rest))
@@ -141,6 +147,35 @@ example : ∃ s',
   have hs := ParenExpr.seesT_init [("IF", "if"), ("LPAREN", "("), ("ID", "a"), ("RPAREN", ")"), ("IF", "if"), ("LPAREN", "("), ("ID", "b"),
     ("RPAREN", ")"), ("ID", "x"), ("SEMI", ";"), ("ELSE", "else"), ("LBRACE", "{"), ("ID", "y"), ("SEMI", ";"),
     ("WHILE", "while"), ("LPAREN", "("), ("ID", "c"), ("RPAREN", ")"), ("BREAK", "break"), ("SEMI", ";"),
+    ("RBRACE", "}")]
+  obtain ⟨s', hr, hs', _⟩ := parse_stmt st hwf _ [] (by simpa [st, S.flat, SL.flat, X.flat] using hs)
+    (by intro _ k v r h; cases h) 300 (by decide)
+  exact ⟨s', hr, hs'⟩
+
+open PycModel.StmtSkel PycModel.View PycModel.FullExpr in
+/-- non-vacuity, switch regrouping: `switch ( x ) { a ; case p : case q : b ; c ; default : d ; }`
+comes back as `a; case p: ; case q: b c; default: d` -/
+example : ∃ s',
+    run 300 .statement
+      (initState ([("SWITCH", "switch"), ("LPAREN", "("), ("ID", "x"), ("RPAREN", ")"), ("LBRACE", "{"), ("ID", "a"), ("SEMI", ";"),
+                   ("CASE", "case"), ("ID", "p"), ("COLON", ":"), ("CASE", "case"), ("ID", "q"), ("COLON", ":"), ("ID", "b"),
+                   ("SEMI", ";"), ("ID", "c"), ("SEMI", ";"), ("DEFAULT", "default"), ("COLON", ":"), ("ID", "d"), ("SEMI", ";"),
+                   ("RBRACE", "}")].map (fun t => SEv.tok t.1 t.2) ++ [.eof]))
+      = .ok (mk .Switch (tc 0) [ParenExpr.idNode 2 "x",
+              mk .Compound (tc 4) [.list [ParenExpr.idNode 5 "a",
+                mk .Case (tc 7) [ParenExpr.idNode 8 "p", .list []],
+                mk .Case (tc 10) [ParenExpr.idNode 11 "q", .list [ParenExpr.idNode 13 "b", ParenExpr.idNode 15 "c"]],
+                mk .Default (tc 17) [.list [ParenExpr.idNode 19 "d"]]]]]) s' ∧ SeesT s' [] := by
+  let st : S := .switch_ (.id "x") (.block (.cons (.expr (.id "a"))
+    (.cons (.case_ (.id "p") (.case_ (.id "q") (.expr (.id "b"))))
+    (.cons (.expr (.id "c")) (.cons (.default_ (.expr (.id "d"))) .nil)))))
+  have hwf : WFS st := by
+    refine .switch_ _ _ (.id _ _) (.block _ (.cons _ _ (.expr _ (.id _ _)) (.cons _ _ ?_ (.cons _ _ (.expr _ (.id _ _))
+      (.cons _ _ (.default_ _ (.expr _ (.id _ _))) .nil)))))
+    exact .case_ _ _ (.id _ _) (.case_ _ _ (.id _ _) (.expr _ (.id _ _)))
+  have hs := ParenExpr.seesT_init [("SWITCH", "switch"), ("LPAREN", "("), ("ID", "x"), ("RPAREN", ")"), ("LBRACE", "{"), ("ID", "a"), ("SEMI", ";"),
+    ("CASE", "case"), ("ID", "p"), ("COLON", ":"), ("CASE", "case"), ("ID", "q"), ("COLON", ":"), ("ID", "b"),
+    ("SEMI", ";"), ("ID", "c"), ("SEMI", ";"), ("DEFAULT", "default"), ("COLON", ":"), ("ID", "d"), ("SEMI", ";"),
     ("RBRACE", "}")]
   obtain ⟨s', hr, hs', _⟩ := parse_stmt st hwf _ [] (by simpa [st, S.flat, SL.flat, X.flat] using hs)
     (by intro _ k v r h; cases h) 300 (by decide)
